@@ -74,6 +74,75 @@ func readBack(db *leveldb.DB) (obs map[string]string, unknown map[string]bool, e
 	return
 }
 
+// readBackIter reads the same keys through one iterator (scan, then Seek to every key with a
+// Prev/Next reversal): whenever the iterator reports no error, what it showed agrees with the
+// point reads on every key those could read. An iterator may fail under a fault; it may not
+// skip pairs silently. Returns violations and the errors met.
+func readBackIter(db *leveldb.DB, obs map[string]string, unknown map[string]bool) (viol []string, errs []string) {
+	it := db.NewIterator(nil, nil)
+	defer it.Release()
+	type kv struct{ k, v string }
+	var scan []kv
+	for it.Next() {
+		scan = append(scan, kv{string(it.Key()), string(it.Value())})
+	}
+	type sk struct {
+		ok        bool
+		k, v      string
+		back, fwd string
+	}
+	seeks := map[string]sk{}
+	for _, k := range faultKeys {
+		var r sk
+		r.ok = it.Seek([]byte(k))
+		if r.ok {
+			r.k, r.v = string(it.Key()), string(it.Value())
+			if it.Prev() {
+				r.back = string(it.Key())
+			}
+			if it.Next() {
+				r.fwd = string(it.Key())
+			}
+		}
+		seeks[k] = r
+	}
+	if err := it.Error(); err != nil {
+		return nil, []string{"iterator: " + err.Error()}
+	}
+	seen := map[string]string{}
+	for i, p := range scan {
+		if i > 0 && scan[i-1].k >= p.k {
+			viol = append(viol, fmt.Sprintf("iterator scan out of order: %q then %q", scan[i-1].k, p.k))
+		}
+		seen[p.k] = p.v
+	}
+	for _, k := range faultKeys {
+		if unknown[k] {
+			continue
+		}
+		gv, gok := obs[k]
+		sv, sok := seen[k]
+		if gok != sok || gv != sv {
+			viol = append(viol, fmt.Sprintf("iterator (no error reported) shows %q=%q present=%v, Get says %q present=%v", k, sv, sok, gv, gok))
+		}
+		// Seek(k): the first scanned key >= k
+		want, wok := "", false
+		for _, p := range scan {
+			if p.k >= k {
+				want, wok = p.k, true
+				break
+			}
+		}
+		r := seeks[k]
+		if r.ok != wok || r.k != want {
+			viol = append(viol, fmt.Sprintf("iterator (no error reported) Seek(%q) = %q ok=%v, the scan's first key >= it is %q ok=%v", k, r.k, r.ok, want, wok))
+		} else if r.ok && r.fwd != r.k {
+			viol = append(viol, fmt.Sprintf("iterator (no error reported) Seek(%q), Prev, Next went %q -> %q -> %q", k, r.k, r.back, r.fwd))
+		}
+	}
+	return
+}
+
 // explainPartial: is there S, acked ⊆ S ⊆ issued, whose in-order application agrees with obs
 // on every key that is not unknown?
 func explainPartial(issued []model.Batch, acked []bool, obs map[string]string, unknown map[string]bool) bool {
@@ -255,6 +324,17 @@ func runFault(t *faultTask) *faultResult {
 			explain = onlyWritten
 		}
 		obs, unk, errs := readBack(w.DB)
+		{
+			// (with a flipped byte served by the storage only the point reads are judged; the
+			// iterator still runs so that the operation count matches the fault-free baseline)
+			iv, ierrs := readBackIter(w.DB, obs, unk)
+			errs = append(errs, ierrs...)
+			if len(iv) > 0 && !flip {
+				census()
+				res.Viol = append(res.Viol, "while running: "+strings.Join(iv, "; "))
+				return
+			}
+		}
 		census()
 		w.Errs = append(w.Errs, errs...)
 		if !explain(w.Issued, w.Acked, obs, unk) {
@@ -307,6 +387,10 @@ func runFault(t *faultTask) *faultResult {
 		w.Errs = append(w.Errs, errs...)
 		if len(unk) > 0 {
 			res.Viol = append(res.Viol, fmt.Sprintf("after reopen without faults reads still fail: %v", errs))
+			return
+		}
+		if iv, ierrs := readBackIter(w.DB, obs, unk); len(iv) > 0 || len(ierrs) > 0 {
+			res.Viol = append(res.Viol, fmt.Sprintf("after reopen without faults: %v %v", iv, ierrs))
 			return
 		}
 		if !explain(w.Issued, w.Acked, obs, unk) {
